@@ -3,6 +3,7 @@ package main
 import (
 	"fmt"
 	"os"
+	"sync"
 	"go/constant"
 	"go/token"
 	"go/types"
@@ -76,6 +77,7 @@ type State struct {
 	now     string
 	stack   []*Frame
 	dyn     []DynCall
+	wf      map[string]bool
 	calls   map[string]int // call counts of tracked functions (concrete counts along this path)
 	callRes map[string][]Val
 	focused map[int]bool
@@ -111,6 +113,7 @@ type Exec struct {
 	fn     *ssa.Function
 	fc     *FuncContract
 	heapSo map[string]string // heap name -> sort
+	heapTy map[string]types.Type
 	states int
 	errs   []string
 	abstr  map[string]int // abstracted calls (callee key -> count)
@@ -138,6 +141,10 @@ func (st *State) clone() *State {
 	n.heaps = make(map[string]string, len(st.heaps))
 	for k, v := range st.heaps {
 		n.heaps[k] = v
+	}
+	n.wf = make(map[string]bool, len(st.wf))
+	for k, v := range st.wf {
+		n.wf[k] = v
 	}
 	n.calls = make(map[string]int, len(st.calls))
 	for k, v := range st.calls {
@@ -205,7 +212,78 @@ func (x *Exec) assume(st *State, cond string) {
 func (x *Exec) heapSym(st *State, name, sort string) string {
 	s := heapSymIn(x, st.heaps, st.epoch, name, sort)
 	st.heaps[name] = s
+	x.wellFormed(st, name, sort, s, st.now)
 	return s
+}
+
+// wellFormed adds, once per path and heap version, the fact that every reference stored in a heap version that
+// was not built by this path (entry heap, or a heap havocked by a call or loop) was allocated before `bound`.
+func (x *Exec) wellFormed(st *State, name, sort, sym, bound string) {
+	if st == nil || st.wf[sym] || !strings.HasPrefix(sym, "|") {
+		return
+	}
+	if st.wf == nil {
+		st.wf = map[string]bool{}
+	}
+	st.wf[sym] = true
+	if !(strings.HasSuffix(sym, "@0|") || strings.Contains(sym, "@e") || strings.Contains(sym, "@p")) {
+		return // built by stores of this path: follows from the facts about the stored values
+	}
+	heapTypes.Lock()
+	t := heapTypes.m[name]
+	heapTypes.Unlock()
+	if t == nil {
+		return
+	}
+	rn := x.fresh("wr")
+	var elem string
+	var binds string
+	switch {
+	case strings.HasPrefix(name, "H:"):
+		elem = fmt.Sprintf("(select %s %s)", sym, rn)
+		binds = fmt.Sprintf("(%s Int)", rn)
+	case strings.HasPrefix(name, "E:"):
+		in := x.fresh("wi")
+		elem = fmt.Sprintf("(select (select %s %s) %s)", sym, rn, in)
+		binds = fmt.Sprintf("(%s Int) (%s Int)", rn, in)
+	case strings.HasPrefix(name, "MV:"):
+		kn := x.fresh("wk")
+		m := t.(*types.Map)
+		elem = fmt.Sprintf("(select (select %s %s) %s)", sym, rn, kn)
+		binds = fmt.Sprintf("(%s Int) (%s %s)", rn, kn, x.so.sortOf(m.Key()))
+		t = m.Elem()
+	default:
+		return
+	}
+	for _, f := range x.refTerms(elem, t, 0) {
+		st.add(fmt.Sprintf("(assert (forall (%s) (! (< (born %s) %s) :pattern (%s))))", binds, f, bound, f))
+	}
+}
+
+// refTerms lists the reference-valued sub-terms of a value of type t.
+func (x *Exec) refTerms(v string, t types.Type, depth int) []string {
+	if depth > 3 {
+		return nil
+	}
+	switch x.so.sortOf(t) {
+	case "Int":
+		if isPtrLike(t) {
+			return []string{v}
+		}
+		return nil
+	case "Slice":
+		return []string{"(s.arr " + v + ")"}
+	case "Iface":
+		return []string{"(i.val " + v + ")"}
+	}
+	if st, name, ok := structOf(t); ok {
+		var out []string
+		for i := 0; i < st.NumFields(); i++ {
+			out = append(out, x.refTerms(fmt.Sprintf("(%s %s)", x.so.selName(name, st.Field(i).Name(), i), v), st.Field(i).Type(), depth+1)...)
+		}
+		return out
+	}
+	return nil
 }
 
 // heapSymIn resolves the current symbol of a heap in a heap view. Entries of the form "?N" are
@@ -253,10 +331,21 @@ func (x *Exec) advanceNow(st *State) {
 	st.now = n
 }
 
-func hName(t types.Type) string  { return "H:" + typeStr(t) }
-func eName(t types.Type) string  { return "E:" + typeStr(t) }
+var heapTypes = struct {
+	sync.Mutex
+	m map[string]types.Type
+}{m: map[string]types.Type{}}
+
+func regHeap(name string, t types.Type) string {
+	heapTypes.Lock()
+	heapTypes.m[name] = t
+	heapTypes.Unlock()
+	return name
+}
+func hName(t types.Type) string  { return regHeap("H:"+typeStr(t), t) }
+func eName(t types.Type) string  { return regHeap("E:"+typeStr(t), t) }
 func mdName(m *types.Map) string { return "MD:" + typeStr(m) }
-func mvName(m *types.Map) string { return "MV:" + typeStr(m) }
+func mvName(m *types.Map) string { return regHeap("MV:"+typeStr(m), m) }
 func mlName(m *types.Map) string { return "ML:" + typeStr(m) }
 
 func (x *Exec) hSort(t types.Type) string { return "(Array Int " + x.so.sortOf(t) + ")" }
@@ -282,6 +371,16 @@ func (x *Exec) baseLoad(heaps map[string]string, epoch int, l *Loc) string {
 	}
 	h := heapSymIn(x, heaps, epoch, hName(l.BT), x.hSort(l.BT))
 	return fmt.Sprintf("(select %s %s)", h, l.Ref)
+}
+
+// rowFrame states, in terms of the element-read function, that updating the backing array `a` leaves the elements
+// of slices over other arrays unchanged (a consequence of the definition of sel; phrased so that it triggers).
+func (x *Exec) rowFrame(st *State, elemT types.Type, oldE, a string) {
+	name, sort := eName(elemT), x.eSort(elemT)
+	newE := x.heapSym(st, name, sort)
+	sel := x.selFn(elemT)
+	sn, in := x.fresh("fs"), x.fresh("fi")
+	st.add(fmt.Sprintf("(assert (forall ((%s Slice) (%s Int)) (! (=> (not (= (s.arr %s) %s)) (= (%s %s %s %s) (%s %s %s %s))) :pattern ((%s %s %s %s)) :pattern ((%s %s %s %s)))))", sn, in, sn, a, sel, newE, sn, in, sel, oldE, sn, in, sel, newE, sn, in, sel, oldE, sn, in))
 }
 
 // selFn declares the element-read function of slices with element type t:
@@ -340,12 +439,14 @@ func (x *Exec) storeLoc(st *State, l *Loc, v string) {
 		name, sort := eName(l.BT), x.eSort(l.BT)
 		h := x.heapSym(st, name, sort)
 		x.setHeap(st, name, sort, fmt.Sprintf("(store %s %s (store (select %s %s) %s %s))", h, l.Ref, h, l.Ref, l.Idx, nv))
+		x.rowFrame(st, l.BT, h, l.Ref)
 		return
 	}
 	if a, ok := isArray(l.BT); ok {
 		name, sort := eName(a.Elem()), x.eSort(a.Elem())
 		h := x.heapSym(st, name, sort)
 		x.setHeap(st, name, sort, fmt.Sprintf("(store %s %s %s)", h, l.Ref, nv))
+		x.rowFrame(st, a.Elem(), h, l.Ref)
 		return
 	}
 	name, sort := hName(l.BT), x.hSort(l.BT)
@@ -758,7 +859,7 @@ func (x *Exec) funcKeyOf(fn *ssa.Function) string {
 	if o := fn.Origin(); o != nil {
 		fn = o
 	}
-	return fn.RelString(nil)
+	return normKey(fn.RelString(nil))
 }
 
 func (x *Exec) contractOf(fn *ssa.Function) (*FuncContract, string) {
@@ -767,6 +868,18 @@ func (x *Exec) contractOf(fn *ssa.Function) (*FuncContract, string) {
 }
 
 func (x *Exec) emit(st *State, kind, name string, c Clause, goal string) {
+	// split top-level conjunctions into separate, smaller queries
+	if strings.HasPrefix(goal, "(and ") {
+		if sx, err := parseSX(goal); err == nil && sx.Head() == "and" && len(sx.List) > 2 {
+			for i, part := range sx.List[1:] {
+				if part.String() == "true" {
+					continue
+				}
+				x.emit(st, kind, fmt.Sprintf("%s#%d", name, i+1), c, part.String())
+			}
+			return
+		}
+	}
 	props := c.Props
 	if len(props) == 0 && x.fc != nil {
 		props = x.fc.Props
@@ -1055,6 +1168,7 @@ func (x *Exec) instr(st *State, in ssa.Instruction) bool {
 		name, sort := eName(sl.Elem()), x.eSort(sl.Elem())
 		h := x.heapSym(st, name, sort)
 		x.setHeap(st, name, sort, fmt.Sprintf("(store %s %s ((as const (Array Int %s)) %s))", h, r, x.so.sortOf(sl.Elem()), x.so.zero(sl.Elem())))
+		x.rowFrame(st, sl.Elem(), h, r)
 		x.bind(st, i, Val{S: fmt.Sprintf("(mk_slice %s 0 %s %s)", r, ln.S, cp.S), T: i.Type()})
 	case *ssa.Slice:
 		x.slice(st, i)
@@ -1226,18 +1340,18 @@ func (x *Exec) binop(st *State, i *ssa.BinOp) {
 		} else if sa == "Str" {
 			switch i.Op {
 			case token.LSS:
-				r = fmt.Sprintf("(str.lt %s %s)", as, bs)
+				r = fmt.Sprintf("(strlt %s %s)", as, bs)
 			case token.GTR:
-				r = fmt.Sprintf("(str.lt %s %s)", bs, as)
+				r = fmt.Sprintf("(strlt %s %s)", bs, as)
 			case token.LEQ:
-				r = fmt.Sprintf("(not (str.lt %s %s))", bs, as)
+				r = fmt.Sprintf("(not (strlt %s %s))", bs, as)
 			case token.GEQ:
-				r = fmt.Sprintf("(not (str.lt %s %s))", as, bs)
+				r = fmt.Sprintf("(not (strlt %s %s))", as, bs)
 			}
 		}
 	case token.ADD:
 		if sa == "Str" {
-			r = fmt.Sprintf("(str.cat %s %s)", as, bs)
+			r = fmt.Sprintf("(strcat %s %s)", as, bs)
 		} else if sa == "Int" && !isFloat(i.X.Type()) {
 			r = fmt.Sprintf("(+ %s %s)", as, bs)
 		}
